@@ -113,8 +113,18 @@ class EngineBase:
                 raise RaiseSig(exc, implicit=True, node=node)
             return
         fn = self.fn_stack[-1].qual if self.fn_stack else '?'
-        self.oblige(f"exc:{fn}:L{getattr(node, 'lineno', 0)}:{exc}:{what}", 'exc', okz, node)
+        self.oblige(f"exc:{fn}:{exc}:{what}@{self.site(node)}", 'exc', okz, node)
         self.st.assume(okz)
+
+    def site(self, node):
+        """identity of a program point that survives line shifts: the source text of the expression / statement"""
+        import ast as _ast
+        if node is None:
+            return '?'
+        try:
+            return ' '.join(_ast.unparse(node).split())[:70]
+        except Exception:
+            return f"L{getattr(node, 'lineno', 0)}"
 
     def declares_raise(self, exc):
         c = self.cur_contract
@@ -297,7 +307,11 @@ class EngineBase:
         if ty in ('str', 'any'):
             return Sym(ty, z3.Select(self.heap_arr(st, cls, field, I), r))
         if ty.startswith('enum:'):
-            return Sym('enum', z3.Select(self.heap_arr(st, cls, field, I), r), ty[5:])
+            t = z3.Select(self.heap_arr(st, cls, field, I), r)
+            if st is self.st and ty[5:] in ENUMS.enums:
+                # typing invariant: an enum-typed field holds a member of that enum
+                st.assume(z3.Or([t == ENUMS.code(ty[5:], m) for m in ENUMS.enums[ty[5:]]]))
+            return Sym('enum', t, ty[5:])
         if ty.startswith('ref:') or ty.startswith('opt:ref:'):
             return Sym('ref', z3.Select(self.heap_arr(st, cls, field, I), r), ty.split('ref:')[1])
         if ty.startswith('optnum'):
